@@ -6,9 +6,9 @@
    Maintenance rule (as in C01Collect.v): a lemma here may use the theorems
    [Cxx_...] and instantiated models of the other Properties files by their
    qualified names, definitions of Model/*.v, and the predicates those theorems
-   are stated with; no lemma from the Proofs/*.v of another development.  The
-   single exception is marked EXCEPTION below (VnBest never answers an
-   in-contract input with an error value).  One Module per algorithm. *)
+   are stated with; no lemma from the Proofs/*.v of another development
+   (VnBest's "an in-contract input is answered by Ok" is C14_vnbest_ok_in_contract).
+   One Module per algorithm. *)
 From Coupe Require Import Lib.Prelude Lib.SFloat.
 From Coq Require Import Floats.SpecFloat Permutation.
 From Coupe Require Lib.Graph.
@@ -31,65 +31,15 @@ Module VnC.
     split; assumption.
   Qed.
 
-  (* EXCEPTION to the maintenance rule: "an in-contract input is never answered
-     by an error value" is not a property theorem of C14 (it states when the two
-     errors DO occur); it is read off the model through VnBestProofs.vn_best_inv
-     and the loop lemmas of NumPartLemmas.  If this breaks: [vnbest_any_input]
-     above is the statement that needs nothing but C14. *)
-  Module Exc.
-    Import Coupe.Proofs.NumPartLemmas Coupe.Proofs.VnBestProofs.
-
-    Lemma nearest_no_err crit p over t2 : forall f a b e, nearest f crit p over t2 a b <> Err e.
-    Proof.
-      induction f as [|f IH]; intros a b e H; cbn [nearest] in H; [discriminate|].
-      destruct a as [a|], b as [b|]; cbv beta iota zeta in H.
-      - destruct (nth_opt crit a) as [ca|]; [|discriminate]. destruct (nth_opt crit b) as [cb|]; [|discriminate].
-        destruct (2 * fst ca - t2 <? t2 - 2 * fst cb); cbv beta iota zeta in H.
-        + destruct (nth_opt crit a) as [cc|]; [|discriminate]. destruct (nth_opt p (snd cc)); [|discriminate].
-          destruct (_ =? over)%N; [discriminate|]. exact (IH _ _ _ H).
-        + destruct (nth_opt crit b) as [cc|]; [|discriminate]. destruct (nth_opt p (snd cc)); [|discriminate].
-          destruct (_ =? over)%N; [discriminate|]. exact (IH _ _ _ H).
-      - destruct (nth_opt crit a) as [cc|]; [|discriminate]. destruct (nth_opt p (snd cc)); [|discriminate].
-        destruct (_ =? over)%N; [discriminate|]. exact (IH _ _ _ H).
-      - destruct (nth_opt crit b) as [cc|]; [|discriminate]. destruct (nth_opt p (snd cc)); [|discriminate].
-        destruct (_ =? over)%N; [discriminate|]. exact (IH _ _ _ H).
-      - discriminate.
-    Qed.
-
-    Lemma vnbest_no_error : forall flt ws p e, length ws = length p -> Forall (fun w => 0 <= w) ws ->
-      vn_best flt ws p <> Err e.
-    Proof.
-      intros flt ws p e Hl Hnn E.
-      destruct (vn_best_inv _ _ _ _ E) as [[C _]|[[_ [C _]]|[_ [_ [C|[Hk C]]]]]];
-        [contradiction|contradiction|discriminate|].
-      rewrite iter_pos_nat in C.
-      destruct (iter_nat (vb_step flt (rev (sort_items_desc (items_of ws)))) _ _) as [?|r] eqn:Hr; [discriminate|].
-      subst r.
-      destruct (iter_nat_inv (vb_step flt (rev (sort_items_desc (items_of ws)))) (fun _ => True)
-                  (fun _ _ _ _ => I) _ _ _ I Hr) as [[[p1 L1] n1] [_ E1]].
-      unfold vb_step in E1.
-      destruct (minmax_pos L1) as [[under over]|]; [|discriminate].
-      destruct (nth_opt L1 over); [|discriminate]. destruct (nth_opt L1 under); [|discriminate].
-      destruct (nearest _ _ _ _ _ _ _) as [[c|]|e'| |] eqn:En; try discriminate.
-      + destruct (nth_opt _ c) as [[w id]|]; [|discriminate].
-        destruct (_ || _); [discriminate|]. destruct (Nat.ltb id (length p1)); [|discriminate].
-        destruct (nth_opt _ under); discriminate.
-      + exact (nearest_no_err _ _ _ _ _ _ _ _ En).
-    Qed.
-  End Exc.
-
   (* under the contract VnBest returns Ok, keeps the length and writes no id
      above the input's maximum *)
   Lemma vnbest_collect : forall flt ws p, length ws = length p -> Forall (fun w => 0 <= w) ws ->
     exists p' n, vn_best flt ws p = Ok (p', n)
       /\ length p' = length p /\ Forall (fun x => (x <= maxN p)%N) p'.
   Proof.
-    intros flt ws p Hl Hnn. destruct (vnbest_any_input flt ws p) as (NP & NF & V).
-    destruct (vn_best flt ws p) as [[p' n]|e|s|] eqn:E.
-    - exists p', n. split; [reflexivity|]. exact (V p' n eq_refl).
-    - exfalso. exact (Exc.vnbest_no_error flt ws p e Hl Hnn E).
-    - exfalso. exact (NP s eq_refl).
-    - exfalso. exact (NF eq_refl).
+    intros flt ws p Hl Hnn. destruct (vnbest_any_input flt ws p) as (_ & _ & V).
+    destruct (C14.C14_vnbest_ok_in_contract flt ws p Hl Hnn) as (p' & n & E).
+    exists p', n. split; [exact E|]. exact (V p' n E).
   Qed.
 
   Lemma vnfirst_collect : forall ws p, Forall (fun w => 0 <= w) ws -> length ws = length p ->
